@@ -440,7 +440,10 @@ class WSGITask(Task):
 
         can_close_app_iter = True
         try:
-            if isinstance(app_iter, ReadOnlyFileBasedBuffer):
+            if isinstance(app_iter, ReadOnlyFileBasedBuffer) and not self.wrote_header:
+                # (once the write() callable has sent the head, the file is sent
+                # through the generic loop below, which keeps the announced
+                # framing: chunking, Content-Length accounting, close on short)
                 cl = self.content_length
                 size = app_iter.prepare(cl)
                 if size:
